@@ -32,13 +32,22 @@ def gen():
     out.append('Definition reset_top_path : string := "%s".\n' % kind)
     # ---- resolve_best_path: takes the vector out of top_path and pushes the nodes of this analysis onto it
     b = sq(F.fn_body(t, "resolve_best_path", TOK))
-    if re.search(r"let mut path = std::mem::replace\(&mut self\.top_path, None\)\.unwrap_or_else\(\|\| Vec::new\(\)\);", b):
+    # the vector is TAKEN out of top_path (which becomes None) and an empty one is used when there was none:
+    #   std::mem::replace(&mut self.top_path, None) | std::mem::take(&mut self.top_path) | self.top_path.take()
+    #   followed by  .unwrap_or_else(|| Vec::new()) | .unwrap_or_else(Vec::new) | .unwrap_or_default() | .unwrap_or(Vec::new())
+    taken = r"(?:std::mem::replace\(&mut self\.top_path, None\)|std::mem::take\(&mut self\.top_path\)|self\.top_path\.take\(\))"
+    empty = r"(?:\.unwrap_or_else\(\|\| Vec::new\(\)\)|\.unwrap_or_else\(Vec::new\)|\.unwrap_or_default\(\)|\.unwrap_or\(Vec::new\(\)\))"
+    m = re.search(r"let mut (\w+) = " + taken + empty + ";", b)
+    if m:
         src = "taken_and_extended"
-    elif re.search(r"let mut path = Vec::(new\(\)|with_capacity\([^)]*\));", b):
-        src = "fresh"
     else:
-        raise F.FactError("resolve_best_path: origin of the path vector not recognised")
-    if len(re.findall(r"\bpath\.push\(ResultNode::new\(", b)) != 1 or not re.search(r"Ok\(path\) ?$", b) or re.search(r"path\.(extend|append|insert|clear|truncate)", b):
+        m = re.search(r"let mut (\w+) = Vec::(?:new\(\)|with_capacity\([^)]*\));", b)
+        if not m:
+            raise F.FactError("resolve_best_path: origin of the path vector not recognised")
+        src = "fresh"
+    v = m.group(1)
+    if len(re.findall(r"\b%s\.push\(ResultNode::new\(" % v, b)) != 1 or not re.search(r"Ok\(%s\) ?$" % v, b) \
+            or re.search(r"\b%s\.(extend|append|insert|clear|truncate|pop|remove|drain|retain)" % v, b) or len(re.findall(r"self\.top_path\b(?!_)", b)) > 1:
         raise F.FactError("resolve_best_path: one push per node and Ok(path) not recognised")
     out.append("(* resolve_best_path: where the vector the nodes are pushed onto comes from: taken_and_extended | fresh *)\n")
     out.append('Definition resolve_path_vector : string := "%s".\n' % src)
@@ -70,7 +79,22 @@ def gen():
     # ---- MorphemeList::collect_results = swap_result with the list's own parts
     ml = F.strip_comments(F.src(MLIST))
     b = sq(F.fn_body(ml, "collect_results", MLIST))
-    if not re.search(r"analyzer\.swap_result\( ?&mut mref\.input, &mut self\.nodes\.mut_data\(\), &mut mref\.subset,? ?\);", b):
+    # the parts handed to swap_result are the list's own: X.input / X.subset of the InputPart borrowed from self.input
+    # (match on try_borrow_mut() or `.map_err(..)?`), and the list's own node vector
+    m = re.search(r"analyzer\.swap_result\( ?&mut (\w+)\.input, &mut self\.nodes\.mut_data\(\), &mut (\w+)\.subset,? ?\);", b)
+    if not m or m.group(1) != m.group(2):
         raise F.FactError("collect_results: call of swap_result not recognised")
+    part = m.group(1)
+    m = re.search(r"let (?:mut )?%s = (\w+)\.deref_mut\(\);" % part, b)
+    if not m:
+        raise F.FactError("collect_results: the swapped parts are not a deref_mut of the borrowed InputPart")
+    guard = m.group(1)
+    if not (re.search(r"match self\.input\.try_borrow_mut\(\) \{ Ok\(mut %s\) =>" % guard, b)
+            or re.search(r"let mut %s = self\.input\.try_borrow_mut\(\)\.map_err\([^;]*\)\?;" % guard, b)
+            or re.search(r"if let Ok\(mut %s\) = self\.input\.try_borrow_mut\(\)" % guard, b)
+            or re.search(r"let mut %s = self\.input\.borrow_mut\(\);" % guard, b)):
+        raise F.FactError("collect_results: the InputPart is not borrowed from self.input")
+    if len(re.findall(r"swap_result", b)) != 1:
+        raise F.FactError("collect_results: more than one swap_result")
     out.append("Definition collect_is_swap_with_own_parts : bool := true.\n")
     return "".join(out)
